@@ -239,8 +239,14 @@ def _pick_iv(rs, x, t0, t1):
     r = rng.random()
     if r < 0.2:
         return None
-    if r < 0.8:
+    if r < 0.75:
         return one()
+    if r < 0.88 and len(pts) > 2:
+        # two intervals that touch exactly on an event time (open intervals: the event is in neither)
+        m = rng.choice(pts[1:-1])
+        lo = rng.choice([p for p in pts + mids if p < m] or [t0])
+        hi = rng.choice([p for p in pts + mids if p > m] or [t1])
+        return [[lo, m], [m, hi]]
     return [one(), one()]
 
 
